@@ -191,6 +191,34 @@ pub struct SC5 {
     pub c: char,
     pub e: Color,
 }
+/// 22  path struct with a `#[serde(flatten)]`-ed part whose members are read
+/// from a string (`from_map`'s `deserialize_any` buffers them as strings)
+#[derive(Deserialize, Serialize, JsonSchema, Debug)]
+pub struct FL {
+    pub id: u32,
+    #[serde(flatten)]
+    pub inner: FLInner,
+}
+#[derive(Deserialize, Serialize, JsonSchema, Debug)]
+pub struct FLInner {
+    pub name: String,
+    pub tag: Option<String>,
+    pub kind: Color,
+    pub c: char,
+}
+/// 23  a flattened part with numeric / boolean members (serde cannot fill
+/// them from a buffered string: always refused when supplied)
+#[derive(Deserialize, Serialize, JsonSchema, Debug)]
+pub struct FN {
+    pub s: String,
+    #[serde(flatten)]
+    pub inner: FNInner,
+}
+#[derive(Deserialize, Serialize, JsonSchema, Debug)]
+pub struct FNInner {
+    pub n: u16,
+    pub f: Option<bool>,
+}
 /// 21  first-page scan parameters of the paginated `/page`
 #[derive(Deserialize, Serialize, JsonSchema, Debug)]
 pub struct ScanP {
